@@ -479,6 +479,11 @@ type handlerCase struct {
 	Subs  int `json:"subs"`
 	Pubs  int `json:"pubs"`
 	Yield int `json:"yield"`
+	// Derived: the publisher that gets SubscribeOn(h), the subscriptions and the direct Publish calls is
+	// itself derived with Map(identity) from an origin; OriginOn: 0 = the origin has no handler,
+	// 1 = the origin has the same handler h, 2 = the origin has another handler
+	Derived  bool `json:"derived"`
+	OriginOn int  `json:"originOn"`
 }
 
 func runHandlerCase(c handlerCase) histResult {
@@ -495,6 +500,18 @@ func runHandlerCase(c handlerCase) histResult {
 	h.Post(func() { hid = vlib.GoID(); close(ready) })
 	<-ready
 	p := fpgo.PublisherNewGenerics[int]()
+	if c.Derived {
+		origin := p
+		switch c.OriginOn {
+		case 1:
+			origin.SubscribeOn(h)
+		case 2:
+			h2 := fpgo.Handler.New()
+			defer h2.Close()
+			origin.SubscribeOn(h2)
+		}
+		p = origin.Map(func(v int) int { return v })
+	}
 	p.SubscribeOn(h)
 	var mu sync.Mutex
 	counts := make([]map[int]int, c.Subs)
@@ -782,7 +799,7 @@ func TestRegress(t *testing.T) {
 		report(t, "C10/history", h, res, func() {})
 	}
 	// SubscribeOn: every subscription exactly once per value (loop-variable capture defect)
-	for _, c := range []handlerCase{{Cap: -1, Subs: 3, Pubs: 20}, {Cap: 16, Subs: 4, Pubs: 50}, {Cap: 0, Subs: 2, Pubs: 50}} {
+	for _, c := range []handlerCase{{Cap: -1, Subs: 3, Pubs: 20}, {Cap: 16, Subs: 4, Pubs: 50}, {Cap: 0, Subs: 2, Pubs: 50}, {Cap: -1, Subs: 2, Pubs: 10, Derived: true, OriginOn: 1}, {Cap: 1, Subs: 2, Pubs: 10, Derived: true, OriginOn: 2}} {
 		for rep := 0; rep < 10; rep++ {
 			vlib.S().Eval("regress")
 			res := runHandlerCase(c)
@@ -922,6 +939,9 @@ func TestSubscribeOn(t *testing.T) {
 			Cap:  rapid.SampledFrom([]int{-1, 0, 1, 16}).Draw(t, "cap"),
 			Subs: rapid.IntRange(1, 6).Draw(t, "subs"),
 			Pubs: rapid.IntRange(1, 30).Draw(t, "pubs"),
+		}
+		if c.Derived = rapid.IntRange(0, 2).Draw(t, "derived") == 0; c.Derived {
+			c.OriginOn = rapid.IntRange(0, 2).Draw(t, "originOn")
 		}
 		st := vlib.S()
 		st.Eval("subscribeOn")
